@@ -752,6 +752,37 @@ def MetadataCache_GetMetadata (fuel : Nat) {σ : Type} (ops : Go.DOps σ) (c : G
           let c := { c with expiresAt := (Go.timeAdd (ops.clock w) ((1 : Int) * Go.Hour)) }
           some ((((metadata, (none : Go.Err)), c), w))
 
+/-- JWKCache.Cleanup (jwk.go) -/
+def JWKCache_Cleanup (now : Go.Time) (c : Go.JwkCache) : Go.JwkCache :=
+  let now_1 := now
+  if (c.jwks.isSome && (Go.timeAfter now_1 c.expiresAt)) then
+    let c := { c with jwks := (none : Option Go.JWKSet) }
+    c
+  else
+    c
+
+/-- JWKCache.GetJWKS (jwk.go) -/
+def JWKCache_GetJWKS {σ : Type} (ops : Go.DOps σ) (c : Go.JwkCache) (ctx : Go.Ctx) (jwksURL : Go.Str) (httpClient : Go.HTTPClient) (w : σ) : (((Option Go.JWKSet) × Go.Err) × Go.JwkCache) × σ :=
+  if (c.jwks.isSome && (Go.timeBefore (ops.clock w) c.expiresAt)) then
+    (((c.jwks, (none : Go.Err)), c), w)
+  else
+    if (c.jwks.isSome && (Go.timeBefore (ops.clock w) c.expiresAt)) then
+      (((c.jwks, (none : Go.Err)), c), w)
+    else
+      let ((jwks, err), w) := (ops.fetchJWKS w jwksURL)
+      if err.isSome then
+        ((((none : Option Go.JWKSet), err), c), w)
+      else
+        let c := { c with jwks := jwks }
+        let lifetime := c.CacheLifetime
+        if (lifetime == (0 : Int)) then
+          let lifetime := ((1 : Int) * Go.Hour)
+          let c := { c with expiresAt := (Go.timeAdd (ops.clock w) lifetime) }
+          (((jwks, (none : Go.Err)), c), w)
+        else
+          let c := { c with expiresAt := (Go.timeAdd (ops.clock w) lifetime) }
+          (((jwks, (none : Go.Err)), c), w)
+
 /-- SessionData.expireAccessTokenChunks (session.go) -/
 def SessionData_expireAccessTokenChunks (fuel : Nat) (sd : Go.SessData) (w : Bool) : Option (Go.SessData) :=
   let i := (0 : Int)
